@@ -1,7 +1,8 @@
 (* Decimal_proofs.v - assembly of the C07 theorems for the two formats Single and Double. *)
 From Coq Require Import ZArith List Bool Lia ZifyBool.
 From PCB Require Import lib.Result lib.PyInt lib.Harness lib.MBFPrims gen.Gen_mbf gen.Gen_dec model.MBF
-  model.Decimal proofs.MBF_base proofs.Decimal_den proofs.Decimal_todec proofs.Decimal_print.
+  model.Decimal proofs.MBF_base proofs.MBF_convert proofs.Decimal_den proofs.Decimal_todec proofs.Decimal_print
+  proofs.Decimal_parse proofs.Decimal_back proofs.Decimal_accum.
 Import ListNotations.
 Open Scope Z_scope.
 
@@ -170,3 +171,68 @@ Proof. intros HF Hm. destruct (fmt_ten F HF) as [HC _]. exact (apply_carry_spec 
 Theorem decimal_exp_range F b : is_fmt F -> buf_ok (d_C F) b -> f_zero b = false ->
   exists num e10, f_decimal (d_C F) b = Ok (num, e10) /\ Z.abs num < 10 ^ c_digits (d_C F) /\ -60 <= e10 <= 36.
 Proof. intros HF. destruct (fmt_cases F HF) as (_ & _ & H). exact (H b). Qed.
+
+(* ------------------------------------------------------------------------------------------------ *)
+(* CLAUSE 4, reading: a literal whose digit string fits the mantissa is stored less than one unit in the
+   last binary place away from its decimal value *)
+
+Lemma float_safe_ok hard r p v : float_safe hard r p = Ok v -> hard = true -> r = Ok v.
+Proof.
+  intros H ->. destruct r as [a|e|x|]; cbn in H; try discriminate; [exact H|].
+  destruct x as [|q|q]; try discriminate.
+  destruct q as [q|q|]; try discriminate. destruct q as [q|q|]; try discriminate. destruct q as [q|q|]; discriminate.
+Qed.
+
+Lemma from_decimal_zero C e : fmt_ok C -> mbf_from_decimal C (zeros (c_size C)) 0 e = Ok (zeros (c_size C)).
+Proof. intros HC. unfold mbf_from_decimal, mbf_from_int. cbn [Z.eqb bind]. reflexivity. Qed.
+
+Theorem parse_err word allow F b :
+  let t := nonblank (stripped word) in
+  (forall r, stripped word <> 38 :: r) -> is_fmt F ->
+  from_repr true word allow = Ok (d_mk F b) -> f_zero b = false ->
+  Z.abs (doc_mantissa t) < 2 ^ mbits (d_C F) -> doc_exp10 t <= 62 ->
+  let Y := f_sval (d_C F) b in
+  let B := 2 ^ c_bias (d_C F) in
+  let U := 2 ^ f_exp b in
+  let k := doc_exp10 t in
+  buf_ok (d_C F) b /\
+  (if 0 <=? k then Z.abs (Y - doc_mantissa t * 10 ^ k * B) < U
+   else Z.abs (Y * 10 ^ (- k) - doc_mantissa t * B) < U * 10 ^ (- k)).
+Proof.
+  cbv zeta. intros Hamp HF Hrepr Hnz Hfit Hk62.
+  destruct (fmt_ten F HF) as [HC Hten].
+  unfold from_repr in Hrepr. fold (stripped word) in Hrepr. set (w := stripped word) in *.
+  assert (Hmk : forall x, VInt x <> d_mk F b) by (intros x; destruct HF as [->| ->]; discriminate).
+  destruct w as [|c0 r0] eqn:Ew.
+  { injection Hrepr as H. exfalso. exact (Hmk _ H). }
+  rewrite <- Ew in *. destruct (Z.eqb_spec c0 38) as [->|Hc]; [exfalso; apply (Hamp r0); exact Ew|].
+  assert (Hfloat : from_repr_float true w allow = Ok (d_mk F b)).
+  { destruct (int_from_str w) as [x|e|x|]; try discriminate.
+    - injection Hrepr as H. exfalso. exact (Hmk _ H).
+    - destruct (e =? err_overflow); [exact Hrepr | discriminate].
+    - destruct (x =? host_ValueError); [exact Hrepr | discriminate]. }
+  clear Hrepr. unfold from_repr_float in Hfloat.
+  pose proof (str_to_decimal_spec w allow) as Hspec. cbv zeta in Hspec.
+  destruct (str_to_decimal w allow) as [[[dbl m] e]|e|x|]; try discriminate.
+  2:{ destruct (x =? host_ValueError); discriminate. }
+  destruct Hspec as (_ & Hdbl & Hm & He). rewrite <- Hm, <- He in *. clear Hm He.
+  unfold from_decimal_safe, rmap in Hfloat.
+  destruct (float_safe true _ _) as [b0| | |] eqn:Hfs; cbn [bind] in Hfloat; try discriminate.
+  apply float_safe_ok in Hfs; [|reflexivity].
+  assert (HFb : (if dbl then Double_fmt else Single_fmt) = F /\ b0 = b).
+  { destruct dbl, HF as [->| ->]; cbn [d_mk Double_fmt Single_fmt] in Hfloat; try discriminate;
+      injection Hfloat as ->; split; reflexivity. }
+  destruct HFb as [HFeq ->]. rewrite HFeq in Hfs. clear Hfloat.
+  set (C := d_C F) in *.
+  (* zero mantissa gives zero *)
+  destruct (Z.eq_dec m 0) as [->|Hm0].
+  { rewrite (from_decimal_zero C e HC) in Hfs. injection Hfs as <-. rewrite (f_zero_zeros C HC) in Hnz. discriminate. }
+  destruct (Z.leb_spec 0 e) as [Hpos|Hneg].
+  - (* multiplications *)
+    rewrite <- (Z2Nat.id e Hpos) in Hfs.
+    destruct (from_decimal_mul_err C HC m (Z.to_nat e) b Hm0 Hfit ltac:(lia) Hfs) as (Hb & _ & Herr).
+    rewrite Z2Nat.id in Herr by lia. split; [exact Hb | exact Herr].
+  - replace e with (- Z.of_nat (Z.to_nat (- e))) in Hfs by lia.
+    destruct (from_decimal_div_err C HC Hten m (Z.to_nat (- e)) b Hm0 Hfit Hfs Hnz) as (Hb & Herr).
+    rewrite Z2Nat.id in Herr by lia. split; [exact Hb | exact Herr].
+Qed.
